@@ -33,19 +33,23 @@ THEOREMS = [P + n for n in (
     'eye_is_convex_combination', 'eye_target_equal_trace', 'eye_intensity_mem_unit',
     'full_symm', 'shrink_symm', 'full_psd', 'shrink_psd', 'shrink_pd_when_active',
     'residual_terms_agree', 'unbalanced_residuals_centered', 'unbalanced_full_is_pooled_cov',
-    'measurements_eq_unbalanced_on_balanced', 'estimate_perm',
+    'measurements_eq_unbalanced_on_balanced', 'estimate_perm', 'unbalanced_perm',
+    'measurements_perm',
     'prec_is_inverse', 'fast_eq_model')]
-RULE = ('one PRNG; residual matrices n=2..12 x p=1..6 (incl. p > n), datasets with 2..5 conditions '
-        'x 1..5 repetitions in shuffled row order with arbitrary integer labels, balanced and '
-        'unbalanced; values are small integers / halves (exact in binary); four methods; dof '
-        'None / scalar / list; single inputs, lists, stacked 3-D arrays.  A case is non-trivial '
+RULE = ('one PRNG; residual matrices n=2..12 x p=1..6 (incl. p > n), datasets with 1..5 conditions '
+        'x 1..5 repetitions in shuffled row order with arbitrary integer or string labels, balanced '
+        'and unbalanced; values are small integers / halves (exact in binary) stored as float64, '
+        'int64 or float32; four methods; dof None / scalar (python or numpy) / list, tuple or '
+        'ndarray; single inputs, lists, stacked 3-D arrays.  A case is non-trivial '
         'when at least one covariance was returned; distinct = distinct (kind, method, form, dof, '
         'inputs)')
 BRANCHES = ['res:single', 'res:list', 'res:array3', 'ds:single:balanced', 'ds:single:unbalanced',
             'ds:list', 'dof:none', 'dof:scalar', 'dof:list', 'res:list+dof:list',
             'method:full', 'method:diag', 'method:shrinkage_eye', 'method:shrinkage_diag',
             'eye:in', 'eye:hi', 'sdiag:in', 'sdiag:hi', 'sdiag:lo', 'intensity:degenerate',
-            'p=1', 'p>n', 'prec:compared', 'prec:singular', 'measurements:ValueError']
+            'p=1', 'p>n', 'prec:compared', 'prec:singular', 'measurements:ValueError',
+            'dtype:float64', 'dtype:int64', 'dtype:float32', 'labels:str', 'dof:tuple', 'dof:ndarray',
+            'dof:npint', 'ds:one-condition']
 ASSUMPTIONS = [
     'numpy float64 evaluation of the closed-form estimators is within 1e-9 relative of the exact '
     'value on the generated (small, dyadic) inputs',
@@ -62,6 +66,22 @@ TRUSTED_EXTRA = [
 METHODS = ['full', 'diag', 'shrinkage_eye', 'shrinkage_diag']
 RTOL, ATOL = 1e-9, 1e-12
 COND_MAX = 1e7
+DTYPES = {'float64': np.float64, 'int64': np.int64, 'float32': np.float32}
+_T64 = {'rtol': RTOL, 'atol': ATOL, 'rel_scale': 0.0, 'eps': 1e-9, 'pd_lam': 1e-6, 'pd_eig': 1e-12,
+        'cond_max': COND_MAX, 'prec_c': 1e-13, 'prec_co': 1e-12, 'prec_a': 1e-9}
+_T = dict(_T64)
+
+
+def _set_tol(case):
+    """tolerances of the case: float64 / int64 inputs are computed in doubles; float32 datasets stay
+    float32 inside the library (6e-8 unit round-off, amplified by the cancellations in the shrinkage
+    intensities), so they get proportionally wider bounds -- a defect still shows as an O(1) error"""
+    _T.clear()
+    _T.update(_T64)
+    if case.get('dtype') == 'float32':
+        r = 2e-3 if case['method'].startswith('shrinkage') else 5e-5
+        _T.update(rtol=r, rel_scale=r, eps=r, pd_lam=1e-2, pd_eig=0.0, cond_max=1e3,
+                  prec_c=1e-6, prec_co=1e-5, prec_a=1e-3)
 
 _model_info = {}      # id of case json -> list of clip tags etc. (filled by model_result)
 
@@ -77,8 +97,10 @@ def _fr(x):
     return unrat(x)
 
 
-def _arr(rows):
-    return np.array([[float(_fr(x)) for x in r] for r in rows], dtype=float)
+def _arr(rows, dtype='float64'):
+    if dtype == 'int64':
+        return np.array([[int(_fr(x)) for x in r] for r in rows], dtype=np.int64)
+    return np.array([[float(_fr(x)) for x in r] for r in rows], dtype=DTYPES[dtype])
 
 
 def _dof_py(d):
@@ -91,9 +113,12 @@ def _dof_arg(case):
     d = case['dof']
     if d is None:
         return None
+    how = case.get('dof_as', 'list')
     if isinstance(d, list):
-        return [_dof_py(x) for x in d]
-    return _dof_py(d)
+        l = [_dof_py(x) for x in d]
+        return tuple(l) if how == 'tuple' else np.array(l) if how == 'ndarray' else l
+    v = _dof_py(d)
+    return np.int64(v) if how == 'npint' and isinstance(v, int) else v
 
 
 def _dof_kind(case):
@@ -127,6 +152,8 @@ def _call(fn, *a, **k):
             return fn(*a, **k)
     except Exception as exc:      # noqa: BLE001  (library exceptions are part of the result)
         name = type(exc).__name__
+        if isinstance(exc, TypeError):
+            name = 'TypeError'        # numpy's UFuncTypeError (in-place cast refused) is a TypeError
         return {'exc': name if name in ('ValueError', 'TypeError', 'AssertionError', 'LinAlgError',
                                         'IndexError', 'AttributeError') else 'other'}
 
@@ -138,7 +165,7 @@ def run_impl(case):
     from rsatoolbox.data import Dataset
     p, form, method = case['p'], case['form'], case['method']
     dof = _dof_arg(case)
-    mats = [_arr(i['rows']) for i in case['inputs']]
+    mats = [_arr(i['rows'], case.get('dtype', 'float64')) for i in case['inputs']]
     res = {'calls': {}}
     if case['kind'] == 'residuals':
         if form == 'single':
@@ -158,7 +185,8 @@ def run_impl(case):
         else:
             res['unchanged'] = bool(np.array_equal(before, after))
     else:
-        dss = [Dataset(m, obs_descriptors={'cond': list(i['labels'])})
+        as_str = case.get('labels_as') == 'str'
+        dss = [Dataset(m, obs_descriptors={'cond': [f'c{lab:02d}' if as_str else lab for lab in i['labels']]})
                for m, i in zip(mats, case['inputs'])]
         arg = dss[0] if form == 'single' else dss
         before = [(d.measurements.copy(), list(d.obs_descriptors['cond'])) for d in dss]
@@ -244,6 +272,7 @@ def _cond(cov, prec):
 
 
 def compare(case, impl, model):
+    _set_tol(case)
     if 'model_error' in model:
         return f"model error {model['model_error']}"
     p = case['p']
@@ -261,7 +290,7 @@ def compare(case, impl, model):
             # covariance is singular / ill-conditioned (LinAlgError)
             if any(raises) and ires['exc'] == 'ValueError':
                 continue
-            sing = [pm is None or _cond(cm, pm) > COND_MAX
+            sing = [pm is None or _cond(cm, pm) > _T['cond_max']
                     for cm, pm in zip(mcov, model['calls'][est + ':prec']) if cm is not None]
             if ires['exc'] == 'LinAlgError' and any(sing):
                 continue
@@ -277,14 +306,14 @@ def compare(case, impl, model):
             if isinstance(im, dict):
                 return f"{call}[{i}]: {im['bad']}"
             if which == 'cov':
-                d = _mat_diff(im, mm, RTOL, ATOL, f'{call}[{i}]')
+                d = _mat_diff(im, mm, _T['rtol'], _T['atol'] + _T['rel_scale'] * _maxabs(mm), f'{call}[{i}]')
                 if d:
                     return d
             else:
                 cm = mcov[i]
-                if mm is None or _cond(cm, mm) > COND_MAX:
+                if mm is None or _cond(cm, mm) > _T['cond_max']:
                     continue           # singular / ill-conditioned: the property is silent
-                tol = 1e-13 * _cond(cm, mm) * _maxabs(mm) + 1e-9 * _maxabs(mm)
+                tol = _T['prec_c'] * _cond(cm, mm) * _maxabs(mm) + _T['prec_a'] * _maxabs(mm)
                 d = _mat_diff(im, mm, 0.0, tol, f'{call}[{i}]')
                 if d:
                     return d
@@ -333,7 +362,7 @@ def _fail(what, observed, expected, **feat):
 
 
 def _close(x, y, scale=0.0):
-    return np.isfinite(x) and abs(x - y) <= ATOL + RTOL * max(abs(x), abs(y), scale)
+    return np.isfinite(x) and abs(x - y) <= _T['atol'] + _T['rtol'] * max(abs(x), abs(y), scale)
 
 
 def _check_estimate(method, cov, S, tag):
@@ -376,9 +405,9 @@ def _check_estimate(method, cov, S, tag):
             if abs(T[j][k] - Sf[j][k]) > best:
                 best, bj, bk = abs(T[j][k] - Sf[j][k]), j, k
     lam = 0.0
-    if best > 1e-9 * scale:
+    if best > max(1e-9, 10 * _T['eps']) * scale:
         lam = (cov[bj][bk] - Sf[bj][bk]) / (T[bj][bk] - Sf[bj][bk])
-    if not -1e-9 <= lam <= 1 + 1e-9:
+    if not -_T['eps'] <= lam <= 1 + _T['eps']:
         return _fail(f'{tag}: shrinkage intensity outside [0,1]', lam, '[0,1]', defect='intensity',
                      ratio=_ratio(cov[bj][bk], Sf[bj][bk]))
     for j in range(p):
@@ -389,10 +418,10 @@ def _check_estimate(method, cov, S, tag):
                              f'target at [{j}][{k}] (intensity {lam:.6g})', cov[j][k], want,
                              defect='combination', ratio=_ratio(cov[j][k], want))
     ev = np.linalg.eigvalsh(np.array(cov))
-    if ev.min() < -1e-9 * scale:
+    if ev.min() < -_T['eps'] * scale:
         return _fail(f'{tag}: estimate is not positive semi-definite', float(ev.min()), '>= 0', defect='psd')
     tdiag = min(T[j][j] for j in range(p))
-    if lam > 1e-6 and tdiag > 1e-9 * scale and ev.min() <= 1e-12 * scale:
+    if lam > _T['pd_lam'] and tdiag > _T['eps'] * scale and ev.min() <= _T['pd_eig'] * scale:
         return _fail(f'{tag}: shrinkage active but estimate not positive definite', float(ev.min()),
                      '> 0', defect='pd')
     return None
@@ -415,20 +444,20 @@ def _cond_of(cov):
 
 
 def _invertible(cov):
-    return not isinstance(cov, dict) and _cond_of(cov) <= COND_MAX
+    return not isinstance(cov, dict) and _cond_of(cov) <= _T['cond_max']
 
 
 def _check_prec(cov, prec, tag):
     c = np.array(cov)
     cond = _cond_of(cov)
-    if cond > COND_MAX:
+    if cond > _T['cond_max']:
         return None
     if isinstance(prec, dict):
         return _fail(f'{tag}: precision call failed although the covariance is invertible',
                      prec, 'inverse', defect='prec')
     pr = np.array(prec)
     err = np.abs(c @ pr - np.eye(len(cov))).max()
-    if not np.isfinite(err) or err > 1e-12 * cond + 1e-9:
+    if not np.isfinite(err) or err > _T['prec_co'] * cond + _T['prec_a']:
         return _fail(f'{tag}: precision is not the inverse of the covariance (max |C P - I|)',
                      float(err), 0.0, defect='prec')
     return None
@@ -437,6 +466,7 @@ def _check_prec(cov, prec, tag):
 def oracle(case):
     if not _valid(case):
         return None            # outside the case space the property / assumptions describe
+    _set_tol(case)
     impl = run_impl(case)
     kind, method, form, p = case['kind'], case['method'], case['form'], case['p']
     n_in = len(case['inputs'])
@@ -494,7 +524,7 @@ def oracle(case):
         got[est] = cov['items']
     if 'measurements' in got and 'unbalanced' in got:
         for i, (a, b) in enumerate(zip(got['measurements'], got['unbalanced'])):
-            d = _mat_diff(a, b, RTOL, ATOL, f'[{i}]')
+            d = _mat_diff(a, b, _T['rtol'], _T['atol'] + _T['rel_scale'] * _maxabs(b), f'[{i}]')
             if d:
                 o = _fail('measurement-based and unbalanced estimators differ on a balanced design', d,
                           'equal', defect='value', est='measurements')
@@ -527,6 +557,13 @@ def features(case, impl):
         balanced = all(len(set(c)) == 1 for c in counts)
         br.append('ds:list' if form != 'single' else
                   'ds:single:' + ('balanced' if balanced else 'unbalanced'))
+    br.append('dtype:' + case.get('dtype', 'float64'))
+    if case.get('labels_as') == 'str':
+        br.append('labels:str')
+    if case.get('dof_as'):
+        br.append('dof:' + case['dof_as'])
+    if kind == 'dataset' and any(len(set(i['labels'])) == 1 for i in case['inputs']):
+        br.append('ds:one-condition')
     if p == 1:
         br.append('p=1')
     if any(p > len(i['rows']) for i in case['inputs']):
@@ -550,6 +587,7 @@ def features(case, impl):
             if call == 'measurements:cov' and isinstance(r, dict) and r.get('exc') == 'ValueError':
                 br.append('measurements:ValueError')
     return {'kind': kind, 'method': method, 'form': form, 'dofkind': _dof_kind(case), 'p': p,
+            'dtype': case.get('dtype', 'float64'),
             'n_inputs': len(case['inputs']), 'balanced': balanced, 'degenerate': degenerate,
             'branches': sorted(set(br))}
 
@@ -557,7 +595,8 @@ def features(case, impl):
 def nontrivial_key(case, impl):
     if impl is None or not any(isinstance(r, dict) and 'items' in r for r in impl['calls'].values()):
         return None
-    return [case['kind'], case['method'], case['form'], case['dof'], case['inputs']]
+    return [case['kind'], case['method'], case['form'], case['dof'], case['inputs'],
+            case.get('dtype'), case.get('labels_as'), case.get('dof_as')]
 
 
 # ------------------------------------------------------------------ generation
@@ -589,6 +628,9 @@ def _valid(case):
             return False
     if case['form'] == 'array3' and len({len(i['rows']) for i in case['inputs']}) > 1:
         return False
+    if case.get('dtype') == 'int64' and any(_fr(x).denominator != 1 for i in case['inputs']
+                                            for r in i['rows'] for x in r):
+        return False
     if isinstance(case['dof'], list) and len(case['dof']) != len(case['inputs']):
         return False
     return True
@@ -608,9 +650,9 @@ def _residual_input(rng, n, p, method):
 
 def _dataset_input(rng, p, method, balanced, n_cond=None, n_rep=None):
     for _ in range(50):
-        n_cond = n_cond or rng.randint(2, 5)
+        n_cond = n_cond or rng.choice([1, 2, 2, 3, 3, 4, 5])
         labs = rng.sample(range(0, 30), n_cond)
-        if balanced:
+        if balanced or n_cond == 1:
             r = n_rep or rng.randint(2, 5)
             counts = [r] * n_cond
         else:
@@ -657,8 +699,38 @@ def _random_case(rng):
     else:
         balanced = rng.random() < 0.65
         inputs = [_dataset_input(rng, p, method, balanced) for _ in range(k)]
-    return {'kind': kind, 'method': method, 'p': p, 'inputs': inputs, 'form': form,
+    case = {'kind': kind, 'method': method, 'p': p, 'inputs': inputs, 'form': form,
             'dof': _dof_for(rng, inputs, kind, form)}
+    return _decorate(rng, case)
+
+
+def _intify(inp):
+    out = dict(inp)
+    out['rows'] = [[int(_fr(x) // 1) for x in r] for r in inp['rows']]
+    return out
+
+
+def _decorate(rng, case, dtype=None, labels_as=None, dof_as=None):
+    """representation choices the property quantifies over silently: array dtype (float64,
+    integer counts, float32), label type (int / str), container of the dof argument"""
+    dtype = dtype or rng.choice(['float64'] * 6 + ['int64', 'int64', 'float32', 'float32'])
+    if dtype == 'int64':
+        ints = [_intify(i) for i in case['inputs']]
+        if case['method'] != 'shrinkage_diag' or all(_ok_variances(i, case['kind']) for i in ints):
+            case['inputs'] = ints
+        else:
+            dtype = 'float64'
+    if dtype != 'float64':
+        case['dtype'] = dtype
+    if case['kind'] == 'dataset' and (labels_as or rng.choice(['int', 'int', 'str'])) == 'str':
+        case['labels_as'] = 'str'
+    if isinstance(case['dof'], list):
+        how = dof_as or rng.choice(['list', 'list', 'tuple', 'ndarray'])
+        if how != 'list':
+            case['dof_as'] = how
+    elif isinstance(case['dof'], int) and (dof_as == 'npint' or (dof_as is None and rng.random() < 0.25)):
+        case['dof_as'] = 'npint'
+    return case
 
 
 def _structured(rng):
@@ -687,6 +759,22 @@ def _structured(rng):
         # many rows, few channels: interior intensity
         yield {'kind': 'residuals', 'method': method, 'p': 2, 'form': 'single', 'dof': None,
                'inputs': [_residual_input(rng, 12, 2, method)]}
+    for method in METHODS:
+        # integer-valued (count) data, string labels
+        yield _decorate(rng, {'kind': 'dataset', 'method': method, 'p': 2, 'form': 'single', 'dof': None,
+                              'inputs': [_dataset_input(rng, 2, method, True, n_cond=3, n_rep=3)]},
+                        dtype='int64', labels_as='str')
+        yield _decorate(rng, {'kind': 'residuals', 'method': method, 'p': 3, 'form': 'array3',
+                              'dof': [4, 6], 'inputs': [_residual_input(rng, 8, 3, method) for _ in range(2)]},
+                        dtype='int64', dof_as='ndarray')
+        # float32 data, a single condition, dof tuple
+        yield _decorate(rng, {'kind': 'dataset', 'method': method, 'p': 2, 'form': 'list', 'dof': [3, 4],
+                              'inputs': [_dataset_input(rng, 2, method, True, n_cond=1, n_rep=6),
+                                         _dataset_input(rng, 2, method, True, n_cond=2, n_rep=4)]},
+                        dtype='float32', dof_as='tuple')
+        yield _decorate(rng, {'kind': 'residuals', 'method': method, 'p': 2, 'form': 'single', 'dof': 5,
+                              'inputs': [_residual_input(rng, 9, 2, method)]},
+                        dtype='float64', dof_as='npint')
     # exactly uncorrelated channels: covariance already diagonal
     yield {'kind': 'residuals', 'method': 'shrinkage_diag', 'p': 2, 'form': 'single', 'dof': None,
            'inputs': [{'rows': [[1, 1], [1, -1], [-1, 1], [-1, -1]]}]}
